@@ -53,27 +53,27 @@ def handle : Handler
   | "mpz_inp_raw", [.str s] => some (inpRaw ⟨ofU8 s, none⟩)
   | "mpz_inp_raw_trunc", [.str s, .num k] => if k < 0 then none else some (inpRaw ⟨ofU8 s, some k.toNat⟩)
   | "mpz_out_raw_fail", [.num x, .num k] =>
-      let (ret, s) := mpz_out_raw { failAt := failAt k } (Mpz.ofInt x)
-      some [natTok ret, natTok s.fired]
+      let (ret, s) := mpz_out_raw (OStream.failing (failAt k)) (Mpz.ofInt x)
+      some [natTok ret, natTok (min s.fired 1)]
   | "mpz_out_inp_raw", [.num x] =>
       let (wret, s) := mpz_out_raw {} (Mpz.ofInt x)
       let (rret, y, _) := mpz_inp_raw fresh ⟨s.out, none⟩ junk0
       some [natTok wret, bytesTok s.out, natTok rret, if y.WF then .num y.toInt else .err "malformed"]
   | "mpz_out_str_fail", [.num base, .num x, .num k] =>
       if !baseOk base then none else
-      let (ret, s) := mpz_out_str { failAt := failAt k } base x
-      some [natTok ret, natTok s.fired]
+      let (ret, s) := mpz_out_str (OStream.failing (failAt k)) base x
+      some [natTok ret, natTok (min s.fired 1)]
   | "mpq_out_str_fail", [.num base, .num n, .num d, .num k] =>
       if !baseOk base then none else
-      let (ret, s) := mpq_out_str { failAt := failAt k } base n d
-      some [natTok ret, natTok s.fired]
+      let (ret, s) := mpq_out_str (OStream.failing (failAt k)) base n d
+      some [natTok ret, natTok (min s.fired 1)]
   | "gmp_fprintf_fail", [.str pre, .num width, .num base, .num x, .str post, .num k] =>
       if !(0 ≤ width && (base == 10 || base == 16)) then none else
       -- the property's demand: -1 whenever a write failed
-      let (ret, fired) := gmpFprintfSpec { failAt := failAt k } (ofU8 pre) width.toNat base.toNat x (ofU8 post)
+      let (ret, fired) := gmpFprintfSpec (failAt k) (ofU8 pre) width.toNat base.toNat x (ofU8 post)
       -- the faithful chunk model of the repaired code must agree with it
-      let (mret, ms) := gmpFprintfModel true { failAt := failAt k } (ofU8 pre) width.toNat base.toNat x (ofU8 post)
-      if mret ≠ ret ∨ ms.fired ≠ fired then some [.err "modelspec"] else some [.num ret, natTok fired]
+      let (mret, ms) := gmpFprintfModel true (OStream.failing (failAt k)) (ofU8 pre) width.toNat base.toNat x (ofU8 post)
+      if mret ≠ ret ∨ min ms.fired 1 ≠ fired then some [.err "modelspec"] else some [.num ret, natTok fired]
   | "mpz_inp_str_trunc", [.num base, .str s, .num k] =>
       let (ret, v, r) := mpz_inp_str 7 ⟨ofU8 s, limit k⟩ base
       if ret = 0 then some [natTok 0, natTok 1] else some [natTok ret, .num v, cTok (getc r).1]
@@ -133,10 +133,10 @@ def pred : PredHandler
       match impl with
       | [.num ret, .num fired, .str digits, .num e] =>
           let ds := ofU8 digits
-          let (r, s) := mpf_out_str { failAt := failAt k } base ds e
+          let (r, s) := mpf_out_str (OStream.failing (failAt k)) base ds e
           if (ds.head? == some 45) != decide (size < 0) then some (some "sign of mpf_get_str digits")
           else if r ≠ ret then some (some s!"return value: model {r}")
-          else if (s.fired : Int) ≠ fired then some (some s!"faults fired: model {s.fired}")
+          else if ((min s.fired 1 : Nat) : Int) ≠ fired then some (some s!"faults fired: model {s.fired}")
           else if fired ≠ 0 ∧ ret ≠ 0 then some (some "write failed but result is not 0")
           else some none
       | _ => some (some "unexpected output shape")
